@@ -182,8 +182,10 @@ def gen_scope(rng, nested=False):
         fields = [f for f in fields if field_ok(f)] or ['a']
         case['log_fields'] = fields
     if rng.random() < 0.6:
-        case['metric'] = {'expr': rng.choice(['a', 'GNUM', 'GNUM + a', 'len(lst)', 'nope', 'uuid', 'GSTR', 'time_ns()']),
-                          'labels': [[k, rng.choice(['GSTR', 's', 'nope', 'uuid', 'o.name', 'FrameType', 'n_0', 'a / 0'])]
+        case['metric'] = {'expr': rng.choice(['a', 'GNUM', 'GNUM + a', 'len(lst)', 'nope', 'uuid', 'GSTR', 'time_ns()',
+                                              "boom('HostInterrupt', 'x')", "boom('SystemExit', 2)", 'a / 0']),
+                          'labels': [[k, rng.choice(['GSTR', 's', 'nope', 'uuid', 'o.name', 'FrameType', 'n_0', 'a / 0',
+                                                     "boom('KeyboardInterrupt', 'k')", "boom('GeneratorExit', 'g')"])]
                                      for k in rng.sample(['l1', 'l2', 'l3'], rng.randint(0, 3))]}
     if nested:
         # the same kinds of expression, now using frame locals inside a lambda / generator expression: as a watch, as
@@ -291,6 +293,10 @@ def corpus():
          'watches': ['G', 'uuid', 'FrameType', 'time_ns', 'x', 'len', 'p', 'p + 1', 'nope'],
          'condition': 'G == "G:G"', 'frame_type': None, 'log_fields': ['G', 'FrameType'],
          'metric': {'expr': 'p', 'labels': [['l1', 'G'], ['l2', 'uuid'], ['l3', 'time_ns']]}},
+        # a metric value / label expression raising a BaseException that is not an Exception is contained like any other
+        {'kind': 'scope', 'via': 'mock', 'globals': {}, 'params': [], 'locals': [['a', 5]], 'names': [], 'watches': ['a'],
+         'condition': None, 'frame_type': 'no_frame',
+         'metric': {'expr': "boom('SystemExit', 2)", 'labels': [['l1', "boom('KeyboardInterrupt', 'k')"], ['l2', 'a']]}},
         # a span tracepoint (and a method-entry one) is gated by its condition like any other action
         {'kind': 'history', 'stream': 'bool', 'action': 'span', 'cfg': {'fire_count': '-1', 'fire_period': '0'},
          'condition': 'cond()', 'hits': [{'ts': 10, 'cond': f}, {'ts': 20, 'cond': {'k': 'raise', 'cls': 'ValueError', 'msg': 'true'}},
